@@ -59,11 +59,29 @@ def observe_op(case):
     return text, got, flt
 
 
+def composes(text, bind, decision, runners=("I", "C")):
+    """the clause's decision is a CEL boolean: negated (as `not:` emits it) and joined with another clause (as a list / `and` emits it)
+    it gives the negated / same decision, under both runners -> list of (what, observed)"""
+    out = []
+    for r in runners:
+        for what, wrapped, want in (("negated", "! (%s)" % text, not decision), ("joined", "(%s) && true" % text, decision), ("alternative", "false || (%s)" % text, decision)):
+            got = celx.strip_py(celx.outcome_abs(celx.run(wrapped, bind, r, functions=c7nlib.FUNCTIONS)))
+            if got != {"t": "bool", "v": want}:
+                out.append((what + " runner=" + r, got))
+    return out
+
+
 def _replay_op(item):
     case, exp = item
     text, got, flt = observe_op(case)
     bad = []
     want = {"t": "bool", "v": exp["v"]}
+    if got == want:
+        res = json_to_cel({"k": to_policy(celx.dec(case["r"]))})
+        bind = {"resource": res, "now": ct.TimestampType(celx.rfc3339(NOW_US))}
+        for what, obs in composes(text, bind, exp["v"])[:1]:
+            bad.append(("op=%s value_type=%s: the decision cannot be %s" % (case["op"], case["vt"], what.split()[0]),
+                        {"filter": flt, "resource": {"k": to_policy(celx.dec(case["r"]))}, "cel": text, "composition": what, "observed": obs}))
     if got != want:
         kind = lambda x: x["t"]  # noqa: E731
         bad.append(("op=%s value_type=%s operands=%s,%s: %s" % (case["op"], case["vt"], kind(case["r"]), kind(case["v"]),
@@ -95,6 +113,10 @@ def _replay_presence(item):
         if got != {"t": "bool", "v": exp["v"]}:
             bad.append(("presence value=%s attribute=%s form=%s: %s runner=%s" % (value, res, form, "opposite decision" if got["t"] == "bool" else got["t"], r),
                         {"filter": flt, "resource": doc, "cel": text, "expected": exp["v"], "observed": got, "runner": r}))
+    if not bad:
+        for what, obs in composes(text, bind, exp["v"])[:1]:
+            bad.append(("presence value=%s form=%s: the decision cannot be %s" % (value, form, what.split()[0]),
+                        {"filter": flt, "resource": doc, "cel": text, "composition": what, "observed": obs}))
     return text, bad
 
 
